@@ -7,6 +7,8 @@ narrowing cast to u8 / u16 in the writer closure, that the value is established 
 
 R2 (E-count): a stored count that mirrors the length of a sibling collection is re-written after every length-changing operation.
 
+R3 (E-digest): a stored digest over the struct's own fields is computed last.
+
 NOT decided: round-trip equality itself, canonical forms, accepted-but-non-canonical inputs, byte-exact rebuilds of CDN files."""
 import re
 from .facts import op_local, Slice
@@ -75,6 +77,41 @@ def low_byte_of_emission(b, cast_dest, operand_local):
     return False
 
 
+def validated_afterwards(prog, b, cast_bb):
+    """discharge idiom (enumerated from DownloadManifestBuilder / SizeManifestBuilder::build): the narrowed count goes into a header, and before the
+    function can return Ok it calls a `validate*` function whose closure compares a value taken from a len() with another value and fails on a
+    mismatch (TagCountMismatch) - a count that was truncated is then refused, not written"""
+    from .lib import assigns_variant
+    oks = set(assigns_variant(b, "Ok", adt_pat=r"result::Result"))
+    if not oks:
+        return False
+    vals = set()
+    for c in b.calls:
+        if c.bb not in b.live_blocks() or not c.local or not re.search(r"::validate\w*$", c.name):
+            continue
+        seen, work, good = set(), [(c.id, 0)], False
+        while work and not good:
+            bid, d = work.pop()
+            if bid in seen or bid not in prog.bodies:
+                continue
+            seen.add(bid)
+            vb = prog.bodies[bid]
+            for (i, j, st) in vb.stmts():
+                r = st["r"]
+                if r["k"] == "Bin" and r["op"] in ("Ne", "Eq"):
+                    for o in r["o"]:
+                        l = op_local(o)
+                        if l is not None and any(x.name.endswith("::len") for x in Slice(vb, [l], transparent=True).calls):
+                            good = True
+            if d < 2:
+                work += [(x.id, d + 1) for x in vb.calls if x.local and x.id in prog.bodies]
+        if good:
+            vals.add(c.bb)
+    if not vals:
+        return False
+    return not (b.reachable(b.succ[cast_bb], avoid=vals) & oks) and not (cast_bb in oks)
+
+
 def r1_no_silent_narrowing(ctx, prefix="cascette_formats", entries=None, floor=8):
     rule = "C08.R1"
     ctx.rule(rule, "every narrowing cast to u8 / u16 of a count, length or field in the writer closure is proven to fit (or is a byte extraction)")
@@ -123,6 +160,10 @@ def r1_no_silent_narrowing(ctx, prefix="cascette_formats", entries=None, floor=8
             ctx.saw(b)
             ctx.call_sites += 1
             key = [bid, sk.what, what_of]
+            if not sk.proven and validated_afterwards(prog, b, sk.bb):
+                ctx.ok(rule, key + ["validated-afterwards"], "every path from the cast to an Ok return passes a validator that compares a stored count with a len()",
+                       sk.loc, sample={"in": bid, "cast": sk.what, "idiom": "count-mismatch validator behind the cast"})
+                continue
             dk = ctx._stable("|".join(str(x) for x in key))
             if not sk.proven and dk in DISCHARGED:
                 ctx.ok(rule, key + ["discharged"], "discharged by key: " + DISCHARGED[dk], sk.loc, sample={"in": bid, "cast": sk.what, "reason": DISCHARGED[dk]})
@@ -137,12 +178,57 @@ def r1_no_silent_narrowing(ctx, prefix="cascette_formats", entries=None, floor=8
     ctx.floor(rule, n, floor, "narrowing casts to u8 / u16 in the writer closure")
 
 
+def arithmetic_families(b):
+    fam = set()
+    for c in b.calls:
+        m = re.search(r"::(wrapping|saturating|checked|overflowing)_(add|sub)$", c.name)
+        if m and c.bb in b.live_blocks():
+            fam.add(m.group(1))
+    return fam
+
+
+def r4_codec_pairs(ctx, krate="cascette_formats", floor=2):
+    """an encoder is the inverse of its decoder only if both work in the same arithmetic: a decoder that adds with wrap-around accepts every delta, so its
+    encoder must subtract with wrap-around; saturating arithmetic is not invertible - `a.saturating_sub(b)` maps every a <= b to 0 - so it can appear on
+    one side only if the other side saturates as well"""
+    rule = "C08.R4"
+    ctx.rule(rule, "encode_* / decode_* siblings of one module: saturating arithmetic appears on both sides or on neither")
+    by = {}
+    for b in ctx.prog.bodies.values():
+        if b.krate != krate or b.root or b.expn:
+            continue
+        m = re.match(r"^(encode|decode)_(\w+)$", b.item or "")
+        if m:
+            by.setdefault((b.file, m.group(2)), {})[m.group(1)] = b
+    n = 0
+    for (f, suffix), pair in sorted(by.items()):
+        if set(pair) != {"encode", "decode"}:
+            continue
+        n += 1
+        e, d = pair["encode"], pair["decode"]
+        ctx.saw(e)
+        ctx.saw(d)
+        fe, fd = arithmetic_families(e), arithmetic_families(d)
+        ok = ("saturating" in fe) == ("saturating" in fd)
+        ctx.check(ok, rule, [f.split("src/")[-1], suffix, "same-arithmetic"], "encode_%s / decode_%s: %s / %s" % (suffix, suffix, sorted(fe), sorted(fd)),
+                  "encode_%s uses %s arithmetic and decode_%s uses %s: saturating arithmetic is not invertible (every input at or past the bound maps to the bound), so "
+                  "values the decoder accepts - a repeated or descending id is a delta of 0xFFFF_FFFF - are re-encoded as a different delta and the rebuilt block "
+                  "carries other content than the parsed one" % (suffix, sorted(fe), suffix, sorted(fd)), e.loc(),
+                  sample={"encode": e.id, "decode": d.id, "encode_arith": sorted(fe), "decode_arith": sorted(fd)})
+    ctx.floor(rule, n, floor, "encode_* / decode_* pairs")
+
+
 def run(ctx):
+    r4_codec_pairs(ctx)
     r1_no_silent_narrowing(ctx)
     # R2 = E-count (rules/redundant.py): a stored count that some body assigns from the length of a sibling Vec is re-written after every operation
     # that changes that length - the serialiser writes the count in front of the records that are present, the parser believes the count
     from . import redundant
     redundant.rule_counts(ctx, "C08.R2", ["cascette_formats"], floor=3)
+    # R3 = E-digest (rules/digestfield.py): a digest field that some body assigns from a hash over its own struct is re-assigned after every later write
+    # to a covered field - the parser verifies the digest, so a field changed behind it makes the writer's own output unreadable
+    from . import digestfield
+    digestfield.rule_digest_last(ctx, "C08.R3", ["cascette_formats"], floor=4)
 
 
 def selftest(ctx):
@@ -163,5 +249,13 @@ def selftest(ctx):
     bad2 = {v.key.split("|")[1].split("::")[-1] for v in sub2.violations}
     for i in ("counted_add_ok", "counted_remove_bad", "counted_remove_ok"):
         (ctx.bad if i in bad2 else ctx.ok)("ST.count", [i], "reported" if i in bad2 else "silent", body(ctx, i).loc())
-    return {"must_report": ["ST.narrow|narrow_len_bad", "ST.count|counted_remove_bad"],
-            "must_not_report": ["ST.narrow|narrow_len_guarded_ok", "ST.narrow|narrow_len_min_ok", "ST.narrow|narrow_emit_bytes_ok", "ST.count|counted_add_ok", "ST.count|counted_remove_ok"]}
+    from . import digestfield
+    sub3 = Ctx(ctx.prog, ctx.prop, ctx.tier, selftest=True)
+    n3 = digestfield.rule_digest_last(sub3, "ST.digest", ["verif_selftest"])
+    if n3 < 2:
+        raise RuntimeError("selftest: E-digest found %d writes to digest-covered fields in the witness crate, expected at least 2" % n3)
+    bad3 = {v.key.split("|")[1].split("::")[-1] for v in sub3.violations}
+    for i in ("sealed_reconfigure_ok", "sealed_reconfigure_bad"):
+        (ctx.bad if i in bad3 else ctx.ok)("ST.digest", [i], "reported" if i in bad3 else "silent", body(ctx, i).loc())
+    return {"must_report": ["ST.narrow|narrow_len_bad", "ST.count|counted_remove_bad", "ST.digest|sealed_reconfigure_bad"],
+            "must_not_report": ["ST.narrow|narrow_len_guarded_ok", "ST.narrow|narrow_len_min_ok", "ST.narrow|narrow_emit_bytes_ok", "ST.count|counted_add_ok", "ST.count|counted_remove_ok", "ST.digest|sealed_reconfigure_ok"]}
